@@ -491,9 +491,20 @@ def register(reg):
       "counterexample shows the strong form fails without that hypothesis. Tie: exhaustive small dependency graphs are "
       "built in the real engine under several schedules; the order in which the engine finished cells (eval / cycle "
       "branch) must be an accepted run of the machine and the values must agree. Search: independent reachability "
-      "oracle for which cells lie on cycles; incremental edits that create and break cycles.",
-      "formulas in the exhaustive family are sums of same-row references, strict in errors; cells that merely depend on a "
-      "cycle are compared with the model only (the property is silent about them).",
+      "oracle for which cells lie on cycles; incremental edits that create and break cycles. Cycles whose cells hold "
+      "DECODED error values (RaisedException with .error None) when they are recalculated are exercised on every run: "
+      "removal of rows / of a column / of the table followed by ApplyUndoActions of the JSON round trip of the undo, and "
+      "loading the stored document into a new engine (action-repr and DB-blob decoding; load_done and Calculate), each "
+      "followed by data and formula edits; 7 fixed witnesses go through every family. These situations are judged by the "
+      "direct oracle (no step raises; cycle cells hold CircularRefError; dependents keep the CircularRefError they held "
+      "in the live engine; off-cycle cells their value; column.get_cell_value of a cell reported as CircularRefError "
+      "raises CircularRefError for its readers). The machine tie covers them only where every formula cell of the rows "
+      "concerned is recalculated (record-removal undo, table-removal undo, document load: the 'graph' op's all-dirty "
+      "start state); column-removal undo and the edits that follow a restored state are judged by the direct oracle ONLY.",
+      "formulas in the exhaustive family are sums of same-row references, strict in errors; in the live-engine family "
+      "cells that merely depend on a cycle are compared with the model only (the property is silent about them). The "
+      "model has one abstract CircularRefError value: live vs decoded error objects are not modelled (reader probe of "
+      "the direct oracle only). Stored form = fetch_table(formulas=True) encoded/decoded in process, not a SQLite file.",
       "Lean 4 theorems (termination measure, progress by pigeonhole, invariant) + trace refinement on exhaustive graphs")
 
   reg("C05", "proof",
